@@ -1,12 +1,12 @@
 package govc
 
 import (
-	"sync"
 	"fmt"
 	"go/token"
 	"go/types"
 	"sort"
 	"strings"
+	"sync"
 
 	"golang.org/x/tools/go/ssa"
 )
@@ -59,12 +59,12 @@ type Obligation struct {
 }
 
 type Query struct {
-	Decls   []string
-	PC      []*Term
-	Goal    *Term
-	Trivial bool // goal folded to true by the simplifier
+	Decls        []string
+	PC           []*Term
+	Goal         *Term
+	Trivial      bool // goal folded to true by the simplifier
 	batchVerdict string
-	Model   map[string]string
+	Model        map[string]string
 	// results
 	Result  string // unsat | sat | unknown | timeout | trivial
 	Backend string
@@ -92,29 +92,29 @@ type snapshot struct {
 }
 
 type Frame struct {
-	Fn     *ssa.Function
-	Block  *ssa.BasicBlock
-	Prev   *ssa.BasicBlock
-	Idx    int
-	Vals   map[ssa.Value]Value
-	Cells  map[*ssa.Alloc]*Term
-	Loops  []*ActiveLoop
-	Iters  map[ssa.Value]*iterState
-	CallIn *ssa.Call // call instruction in the caller frame awaiting our result (nil for top)
+	Fn      *ssa.Function
+	Block   *ssa.BasicBlock
+	Prev    *ssa.BasicBlock
+	Idx     int
+	Vals    map[ssa.Value]Value
+	Cells   map[*ssa.Alloc]*Term
+	Loops   []*ActiveLoop
+	Iters   map[ssa.Value]*iterState
+	CallIn  *ssa.Call // call instruction in the caller frame awaiting our result (nil for top)
 	Inlined bool
 }
 
 type State struct {
-	Decls   []string
-	PC      []*Term
-	Heaps   map[string]*Term
-	Alloc   *Term
-	Globals map[*ssa.Global]*Term
-	Frames  []*Frame
-	Dead    bool
-	Depth   int
-	Trace   []string
-	Known   map[string]string
+	Decls      []string
+	PC         []*Term
+	Heaps      map[string]*Term
+	Alloc      *Term
+	Globals    map[*ssa.Global]*Term
+	Frames     []*Frame
+	Dead       bool
+	Depth      int
+	Trace      []string
+	Known      map[string]string
 	ParamHeaps bool // heaps are parameters of a spec function being defined
 	// entry snapshot of the unit (for old() and frame checks)
 	Entry *snapshot
@@ -243,19 +243,19 @@ type Unit struct {
 	Obls map[string]*Obligation
 	Ord  []string
 	// per-kind site counters keyed by instruction
-	siteNames map[string]string
-	kindCount map[string]int
-	Paths     int
-	MaxPaths  int
-	Refused   string
-	Inlined   map[string]bool
-	Assumed   map[string]bool // trusted/external contracts used
-	ParamVals map[string]Value
-	EntryVals []Value
-	RetCount  int
-	Canaries  []*Query
-	loopOrd   map[*ssa.BasicBlock]int
-	loopBody  map[*ssa.BasicBlock]map[*ssa.BasicBlock]bool
+	siteNames  map[string]string
+	kindCount  map[string]int
+	Paths      int
+	MaxPaths   int
+	Refused    string
+	Inlined    map[string]bool
+	Assumed    map[string]bool // trusted/external contracts used
+	ParamVals  map[string]Value
+	EntryVals  []Value
+	RetCount   int
+	Canaries   []*Query
+	loopOrd    map[*ssa.BasicBlock]int
+	loopBody   map[*ssa.BasicBlock]map[*ssa.BasicBlock]bool
 	SafetyOnly bool
 
 	Uncontracted  map[string]bool
